@@ -98,8 +98,8 @@ theorem closeFds_eq (s : St) (h1 h2 : Bool) : closeFds fault s h1 h2 =
     (let r1 := closeOne fault .closeDst s h1
      let r2 := closeOne fault .closeSrc r1.1 h2
      (r2.1, if errnoStatus s.errno ≠ 0 then errnoStatus s.errno
-            else if (if r1.2 then 0 else errnoStatus r1.1.errno) ≠ 0 then (if r1.2 then 0 else errnoStatus r1.1.errno)
-            else (if r2.2 then 0 else errnoStatus r2.1.errno))) := rfl
+            else if (if r1.2 then errnoStatus r1.1.errno else 0) ≠ 0 then (if r1.2 then errnoStatus r1.1.errno else 0)
+            else (if r2.2 then errnoStatus r2.1.errno else 0))) := rfl
 
 theorem closeOne_frame (c : Call) (s : St) (hv : Bool) :
     (closeOne fault c s hv).1.src = s.src ∧ (closeOne fault c s hv).1.dst = s.dst ∧
@@ -176,7 +176,7 @@ theorem closeFds_ok (h : ∀ n e, fault .closeDst n ≠ some (.err e)) (h' : ∀
   have h1 := closeOne_ok fault .closeDst s hd h
   have h2 := closeOne_ok fault .closeSrc (closeOne fault .closeDst s hd).1 hs h'
   simp only []
-  rw [h1.1, h2.1, h2.2, h1.2, he]
+  rw [h1.1, h2.1, he]
   simp
 
 theorem finishCopy_frame :
@@ -501,6 +501,167 @@ theorem copyBlocks_ok (hokr : ∀ n e, fault .read n ≠ some (.err e))
 end
 
 
+/-! ## call counts: which calls a piece of the function can issue -/
+section
+variable (fault : Call → Nat → Option Fault)
+
+theorem issueSt_count_ne (s : St) {c c' : Call} (h : c' ≠ c) : (issueSt fault s c).count c' = s.count c' :=
+  (issueSt_count fault s c c').trans (if_neg h)
+
+theorem closeOne_count (c : Call) (s : St) (hv : Bool) {c' : Call} (h : c' ≠ c) :
+    (closeOne fault c s hv).1.count c' = s.count c' := by
+  unfold closeOne
+  cases hv
+  · rfl
+  · simp only [issue_eq, if_true]
+    rcases fault c (s.count c) with _ | ⟨e⟩ | ⟨n⟩ <;> exact issueSt_count_ne fault s h
+
+theorem syncOne_count (s : St) (hv : Bool) {c' : Call} (h : c' ≠ .fdatasync) :
+    (syncOne fault s hv).1.count c' = s.count c' := by
+  unfold syncOne
+  cases hv
+  · rfl
+  · simp only [issue_eq, if_true]
+    rcases fault .fdatasync (s.count .fdatasync) with _ | ⟨e⟩ | ⟨n⟩ <;> exact issueSt_count_ne fault s h
+
+theorem closeFds_count (s : St) (hd hs : Bool) {c' : Call} (h1 : c' ≠ .closeDst) (h2 : c' ≠ .closeSrc) :
+    (closeFds fault s hd hs).1.count c' = s.count c' := by
+  rw [closeFds_eq]
+  exact (closeOne_count fault .closeSrc _ hs h2).trans (closeOne_count fault .closeDst s hd h1)
+
+theorem finishCopy_count (s : St) (hd hs : Bool) (status : Int) {c' : Call} (h0 : c' ≠ .fdatasync)
+    (h1 : c' ≠ .closeDst) (h2 : c' ≠ .closeSrc) :
+    (finishCopy fault s hd hs status).1.count c' = s.count c' := by
+  rw [finishCopy_eq]
+  exact (closeFds_count fault _ hd hs h1 h2).trans (syncOne_count fault s hd h0)
+
+theorem cfrLoop_count {c' : Call} (h : c' ≠ .cfr) (fuel : Nat) (s : St) (r : Nat) :
+    (cfrLoop fault fuel s r).1.count c' = s.count c' := by
+  induction fuel generalizing s r with
+  | zero => simp [cfrLoop]
+  | succ fuel ih =>
+    unfold cfrLoop
+    split
+    · rfl
+    · simp only [issue_eq]
+      rcases fault .cfr (s.count .cfr) with _ | ⟨e⟩ | ⟨n⟩ <;> simp only []
+      · exact (ih _ _).trans (issueSt_count_ne fault s h)
+      · (repeat' split) <;> exact issueSt_count_ne fault s h
+      · exact (ih _ _).trans (issueSt_count_ne fault s h)
+
+theorem writeAll_count {c' : Call} (h : c' ≠ .write) (fuel : Nat) (s : St) (chunk : List Nat) :
+    (writeAll fault fuel s chunk).1.count c' = s.count c' := by
+  induction fuel generalizing s chunk with
+  | zero => simp [writeAll]
+  | succ fuel ih =>
+    unfold writeAll
+    split
+    · rfl
+    · simp only [issue_eq]
+      rcases fault .write (s.count .write) with _ | ⟨e⟩ | ⟨n⟩ <;> simp only []
+      · split
+        · exact issueSt_count_ne fault s h
+        · exact (ih _ _).trans (issueSt_count_ne fault s h)
+      · exact issueSt_count_ne fault s h
+      · split
+        · exact issueSt_count_ne fault s h
+        · exact (ih _ _).trans (issueSt_count_ne fault s h)
+
+theorem cbStep_count {c' : Call} (h : c' ≠ .write) (bufSize fuel : Nat)
+    (ih : ∀ s off, (copyBlocks fault bufSize fuel s off).1.count c' = s.count c') (s : St) (off k : Nat) :
+    (cbStep fault bufSize fuel s off k).1.count c' = s.count c' := by
+  unfold cbStep
+  by_cases hk : k = 0
+  · simp [hk]
+  · rw [if_neg hk]
+    have hfr := writeAll_count fault h (k + 1) s ((s.src.drop off).take k)
+    rcases hw : writeAll fault (k + 1) s ((s.src.drop off).take k) with ⟨s', _ | st⟩
+    · rw [hw] at hfr; simp only [] at hfr ⊢
+      exact (ih s' (off + k)).trans hfr
+    · rw [hw] at hfr; exact hfr
+
+theorem copyBlocks_count {c' : Call} (hr : c' ≠ .read) (hw : c' ≠ .write) (bufSize fuel : Nat) (s : St) (off : Nat) :
+    (copyBlocks fault bufSize fuel s off).1.count c' = s.count c' := by
+  induction fuel generalizing s off with
+  | zero => simp [copyBlocks]
+  | succ fuel ih =>
+    rw [copyBlocks_succ]
+    rcases fault .read (s.count .read) with _ | ⟨e⟩ | ⟨n⟩ <;> simp only []
+    · exact (cbStep_count fault hw bufSize fuel ih _ _ _).trans (issueSt_count_ne fault s hr)
+    · exact issueSt_count_ne fault s hr
+    · exact (cbStep_count fault hw bufSize fuel ih _ _ _).trans (issueSt_count_ne fault s hr)
+
+/-! ### a status of 0 from `finishCopy` means that nothing it called failed -/
+
+theorem ite3_zero {a b c : Int} (h : (if a ≠ 0 then a else if b ≠ 0 then b else c) = 0) :
+    a = 0 ∧ b = 0 ∧ c = 0 := by
+  by_cases ha : a = 0
+  · by_cases hb : b = 0
+    · simpa [ha, hb] using h
+    · rw [if_neg (by simpa using ha), if_pos hb] at h; exact absurd h hb
+  · rw [if_pos ha] at h; exact absurd h ha
+
+/-- No call of this kind has been made yet. -/
+def Fresh (s : St) : Prop := s.count .fdatasync = 0 ∧ s.count .closeDst = 0 ∧ s.count .closeSrc = 0
+
+/-- The first `fdatasync` and the first close of either descriptor did not fail. -/
+def NoCloseErr : Prop :=
+  (∀ e, fault .closeDst 0 ≠ some (.err e)) ∧ (∀ e, fault .closeSrc 0 ≠ some (.err e)) ∧
+  (∀ e, fault .fdatasync 0 ≠ some (.err e))
+
+section
+variable (hl : ∀ c n e, fault c n = some (.err e) → e ≠ 0)
+include hl
+
+theorem syncOne_reported (s : St) (hc : s.count .fdatasync = 0) (h0 : (syncOne fault s true).2 = 0) :
+    ∀ e, fault .fdatasync 0 ≠ some (.err e) := by
+  intro e he
+  unfold syncOne at h0
+  simp only [issue_eq, if_true, hc, he] at h0
+  exact errnoStatus_ne_zero (hl _ _ _ he) h0
+
+theorem closeOne_reported (c : Call) (s : St) (hc : s.count c = 0)
+    (h0 : (if (closeOne fault c s true).2 then errnoStatus (closeOne fault c s true).1.errno else 0) = 0) :
+    ∀ e, fault c 0 ≠ some (.err e) := by
+  intro e he
+  unfold closeOne at h0
+  simp only [issue_eq, if_true, hc, he] at h0
+  exact errnoStatus_ne_zero (hl _ _ _ he) h0
+
+theorem closeFds_reported (s : St) (hc1 : s.count .closeDst = 0) (hc2 : s.count .closeSrc = 0)
+    (h0 : (closeFds fault s true true).2 = 0) :
+    (∀ e, fault .closeDst 0 ≠ some (.err e)) ∧ (∀ e, fault .closeSrc 0 ≠ some (.err e)) := by
+  rw [closeFds_eq] at h0
+  obtain ⟨_, h1, h2⟩ := ite3_zero h0
+  exact ⟨closeOne_reported fault hl .closeDst s hc1 h1,
+    closeOne_reported fault hl .closeSrc _ ((closeOne_count fault .closeDst s true (by decide)).trans hc2) h2⟩
+
+theorem finishCopy_reported (s : St) (status : Int) (hf : Fresh s)
+    (h0 : (finishCopy fault s true true status).2 = 0) : NoCloseErr fault := by
+  rw [finishCopy_eq] at h0
+  obtain ⟨_, h1, h2⟩ := ite3_zero h0
+  have hc := closeFds_reported fault hl (syncOne fault s true).1
+    ((syncOne_count fault s true (by decide)).trans hf.2.1) ((syncOne_count fault s true (by decide)).trans hf.2.2) h2
+  exact ⟨hc.1, hc.2, syncOne_reported fault hl s hf.1 h1⟩
+end
+
+theorem Fresh.issue {s : St} (h : Fresh s) (c : Call) (h0 : c ≠ .fdatasync := by decide)
+    (h1 : c ≠ .closeDst := by decide) (h2 : c ≠ .closeSrc := by decide) : Fresh (issueSt fault s c) :=
+  ⟨(issueSt_count_ne fault s (Ne.symm h0)).trans h.1, (issueSt_count_ne fault s (Ne.symm h1)).trans h.2.1,
+    (issueSt_count_ne fault s (Ne.symm h2)).trans h.2.2⟩
+
+theorem Fresh.cfrLoop {s : St} (h : Fresh s) (fuel r : Nat) : Fresh (cfrLoop fault fuel s r).1 :=
+  ⟨(cfrLoop_count fault (by decide) fuel s r).trans h.1, (cfrLoop_count fault (by decide) fuel s r).trans h.2.1,
+    (cfrLoop_count fault (by decide) fuel s r).trans h.2.2⟩
+
+theorem Fresh.copyBlocks {s : St} (h : Fresh s) (bufSize fuel off : Nat) :
+    Fresh (copyBlocks fault bufSize fuel s off).1 :=
+  ⟨(copyBlocks_count fault (by decide) (by decide) bufSize fuel s off).trans h.1,
+    (copyBlocks_count fault (by decide) (by decide) bufSize fuel s off).trans h.2.1,
+    (copyBlocks_count fault (by decide) (by decide) bufSize fuel s off).trans h.2.2⟩
+end
+
+
 /-! ## `copyFile` in stages
 
 The stage functions are verbatim pieces of `copyFile`, so `copyFile_eq` holds by `rfl`; each stage then
@@ -512,24 +673,36 @@ variable (w : World) (ow : Bool) (fault : Call → Nat → Option Fault)
 def finishR (s : St) (hd hs : Bool) (status : Int) : Result :=
   ⟨(finishCopy fault s hd hs status).2, (finishCopy fault s hd hs status).1⟩
 
-/-- The user-space copy after the kernel copy reported NOT_SUPPORTED. -/
+/-- Releasing the buffer (`zix_aligned_free`) and the `errno = 0` that follows: the release cannot
+fail, whatever it leaves in errno is discarded. -/
+def freeOne (s : St) : St :=
+  let s := match issue fault s .free with
+    | (s, some (.err e)) => { s with errno := e }
+    | (s, _) => s
+  { s with errno := 0 }
+
+/-- The user-space copy: when the kernel copy reported NOT_SUPPORTED or the source reports no size. -/
 def stageFallback (s : St) : Result :=
   let done := (s.dst.getD []).length
   let (s, f) := issue fault s .alloc
   let bufSize := match f with | some _ => 512 | none => w.blk
   let s := { s with errno := 0 }
   let (s, st) := copyBlocks fault bufSize (s.src.length + 2) s done
+  let s := freeOne fault s
   let (s, st) := finishCopy fault s true true st
   ⟨st, s⟩
 
-/-- The kernel copy and what follows. -/
+/-- The kernel copy (only for a source that reports a size) and what follows. -/
 def stageCopy (s : St) : Result :=
-  let s := { s with errno := 0 }
-  match cfrLoop fault (s.src.length + 1) s s.src.length with
-  | (s, some st) =>
-    let (s, st) := finishCopy fault s true true st
-    ⟨st, s⟩
-  | (s, none) => stageFallback w fault s
+  let reported := if w.sizeKnown then s.src.length else 0
+  if reported = 0 then stageFallback w fault s
+  else
+    let s := { s with errno := 0 }
+    match cfrLoop fault (s.src.length + 1) s reported with
+    | (s, some st) =>
+      let (s, st) := finishCopy fault s true true st
+      ⟨st, s⟩
+    | (s, none) => stageFallback w fault s
 
 /-- After both files are open and examined: same-file check, truncation. -/
 def stageTrunc (s : St) : Result :=
@@ -666,23 +839,45 @@ theorem stageTrunc_eq (s : St) : stageTrunc w ow fault s =
       rcases fault .ftruncate (s.count .ftruncate) with _ | ⟨e⟩ | ⟨n⟩ <;> rfl
 
 theorem stageCopy_eq (s : St) : stageCopy w fault s =
-    match (cfrLoop fault (s.src.length + 1) { s with errno := 0 } s.src.length).2 with
-    | some st => finishR fault (cfrLoop fault (s.src.length + 1) { s with errno := 0 } s.src.length).1 true true st
-    | none => stageFallback w fault (cfrLoop fault (s.src.length + 1) { s with errno := 0 } s.src.length).1 := by
+    if w.sizeKnown = false ∨ s.src.length = 0 then stageFallback w fault s
+    else
+      match (cfrLoop fault (s.src.length + 1) { s with errno := 0 } s.src.length).2 with
+      | some st => finishR fault (cfrLoop fault (s.src.length + 1) { s with errno := 0 } s.src.length).1 true true st
+      | none => stageFallback w fault (cfrLoop fault (s.src.length + 1) { s with errno := 0 } s.src.length).1 := by
   unfold stageCopy
-  show (match cfrLoop fault (s.src.length + 1) { s with errno := 0 } s.src.length with
-    | (s, some st) => _ | (s, none) => _) = _
-  rcases cfrLoop fault (s.src.length + 1) { s with errno := 0 } s.src.length with ⟨s', _ | st⟩ <;> rfl
+  cases w.sizeKnown
+  · simp
+  · by_cases h0 : s.src.length = 0
+    · simp [h0]
+    · simp only [if_true, if_neg h0, Bool.true_eq_false, false_or]
+      show (match cfrLoop fault (s.src.length + 1) { s with errno := 0 } s.src.length with
+        | (s, some st) => _ | (s, none) => _) = _
+      rcases cfrLoop fault (s.src.length + 1) { s with errno := 0 } s.src.length with ⟨s', _ | st⟩ <;> rfl
 
 /-- The buffer size used by the user-space copy. -/
 def bufSizeOf (f : Option Fault) : Nat := match f with | some _ => 512 | none => w.blk
 
 theorem stageFallback_eq (s : St) : stageFallback w fault s =
     finishR fault
-      (copyBlocks fault (bufSizeOf w (fault .alloc (s.count .alloc))) (s.src.length + 2)
-        { issueSt fault s .alloc with errno := 0 } (s.dst.getD []).length).1 true true
+      (freeOne fault (copyBlocks fault (bufSizeOf w (fault .alloc (s.count .alloc))) (s.src.length + 2)
+        { issueSt fault s .alloc with errno := 0 } (s.dst.getD []).length).1) true true
       (copyBlocks fault (bufSizeOf w (fault .alloc (s.count .alloc))) (s.src.length + 2)
         { issueSt fault s .alloc with errno := 0 } (s.dst.getD []).length).2 := rfl
+
+theorem freeOne_eq (s : St) : freeOne fault s = { issueSt fault s .free with errno := 0 } := by
+  unfold freeOne; simp only [issue_eq]
+  rcases fault .free (s.count .free) with _ | ⟨e⟩ | ⟨n⟩ <;> rfl
+
+section
+variable (s : St)
+@[simp] theorem freeOne_src : (freeOne fault s).src = s.src := by rw [freeOne_eq]; rfl
+@[simp] theorem freeOne_dst : (freeOne fault s).dst = s.dst := by rw [freeOne_eq]; rfl
+@[simp] theorem freeOne_opened : (freeOne fault s).opened = s.opened := by rw [freeOne_eq]; rfl
+@[simp] theorem freeOne_closed : (freeOne fault s).closed = s.closed := by rw [freeOne_eq]; rfl
+@[simp] theorem freeOne_errno : (freeOne fault s).errno = 0 := by rw [freeOne_eq]
+theorem freeOne_count (c : Call) (h : c ≠ .free) : (freeOne fault s).count c = s.count c := by
+  rw [freeOne_eq]; exact (issueSt_count fault s .free c).trans (if_neg h)
+end
 end
 
 /-! ## properties of the stages -/
@@ -728,14 +923,17 @@ theorem stageFallback_bal (s : St) : Bal 2 s (stageFallback w fault s) := by
   rw [stageFallback_eq]
   have h := copyBlocks_frame fault (bufSizeOf w (fault .alloc (s.count .alloc))) (s.src.length + 2)
         { issueSt fault s .alloc with errno := 0 } (s.dst.getD []).length
-  exact (finishR_bal fault _ true true _).of_eq h.1 h.2.1 h.2.2
+  exact (finishR_bal fault _ true true _).of_eq ((freeOne_src ..).trans h.1) ((freeOne_opened ..).trans h.2.1)
+    ((freeOne_closed ..).trans h.2.2)
 
 theorem stageCopy_bal (s : St) : Bal 2 s (stageCopy w fault s) := by
   rw [stageCopy_eq]
   have h := cfrLoop_frame fault (s.src.length + 1) { s with errno := 0 } s.src.length
   split
-  · exact (finishR_bal fault _ true true _).of_eq h.1 h.2.1 h.2.2
-  · exact (stageFallback_bal w fault _).of_eq h.1 h.2.1 h.2.2
+  · exact stageFallback_bal w fault s
+  · split
+    · exact (finishR_bal fault _ true true _).of_eq h.1 h.2.1 h.2.2
+    · exact (stageFallback_bal w fault _).of_eq h.1 h.2.1 h.2.2
 
 theorem stageTrunc_bal (s : St) : Bal 2 s (stageTrunc w ow fault s) := by
   rw [stageTrunc_eq]
@@ -815,7 +1013,7 @@ theorem stageFallback_complete (hblk : 0 < w.blk) (s : St) (d : Nat) (hd : d ≤
     (stageFallback w fault s).st.dst = some s.src := by
   rw [stageFallback_eq] at h0 ⊢
   have hst := status_zero_of_finishR _ _ _ _ _ h0
-  rw [finishR_dst]
+  rw [finishR_dst, freeOne_dst]
   have hlen : (s.dst.getD []).length = d := by simp [hdst]; omega
   rw [hlen] at hst ⊢
   have hb : 0 < bufSizeOf w (fault .alloc (s.count .alloc)) := by
@@ -826,6 +1024,10 @@ theorem stageFallback_complete (hblk : 0 < w.blk) (s : St) (d : Nat) (hd : d ≤
 theorem stageCopy_complete (hblk : 0 < w.blk) (s : St) (hdst : s.dst = some [])
     (h0 : (stageCopy w fault s).status = 0) : (stageCopy w fault s).st.dst = some s.src := by
   rw [stageCopy_eq] at h0 ⊢
+  by_cases hc : w.sizeKnown = false ∨ s.src.length = 0
+  · rw [if_pos hc] at h0 ⊢
+    exact stageFallback_complete w fault hl hblk s 0 (Nat.zero_le _) (by simp [hdst]) h0
+  rw [if_neg hc] at h0 ⊢
   have hfr := cfrLoop_frame fault (s.src.length + 1) { s with errno := 0 } s.src.length
   obtain ⟨r', hr', hd', hz⟩ := cfrLoop_spec fault (hl _) (s.src.length + 1) { s with errno := 0 } s.src.length
     (Nat.le_refl _) (Nat.lt_succ_self _) (by simp [hdst])
@@ -901,38 +1103,42 @@ end
 /-! ### no failing call: SUCCESS -/
 section
 variable (hok : ∀ c n e, fault c n = some (.err e) →
-    (c = .alloc ∨ (c = .cfr ∧ (e = EXDEV ∨ e = EINVAL ∨ e = ENOSYS))))
+    (c = .alloc ∨ c = .free ∨ (c = .cfr ∧ (e = EXDEV ∨ e = EINVAL ∨ e = ENOSYS))))
   (hshort : ∀ c n k, fault c n = some (.short k) → 0 < k)
 include hok
 
-theorem no_err_of_hok (c : Call) (h1 : c ≠ .alloc) (h2 : c ≠ .cfr) (n : Nat) (e : Int) :
+theorem no_err_of_hok (c : Call) (h1 : c ≠ .alloc) (h2 : c ≠ .cfr) (h3 : c ≠ .free) (n : Nat) (e : Int) :
     fault c n ≠ some (.err e) := by
   intro h
-  rcases hok c n e h with h' | ⟨h', _⟩
+  rcases hok c n e h with h' | h' | ⟨h', _⟩
   · exact h1 h'
+  · exact h3 h'
   · exact h2 h'
 
 include hshort
 
 theorem stageFallback_ok (s : St) : (stageFallback w fault s).status = 0 := by
   rw [stageFallback_eq]
-  have h := copyBlocks_ok fault (no_err_of_hok fault hok .read (by decide) (by decide))
-    (no_err_of_hok fault hok .write (by decide) (by decide)) (hshort .write)
+  have h := copyBlocks_ok fault (no_err_of_hok fault hok .read (by decide) (by decide) (by decide))
+    (no_err_of_hok fault hok .write (by decide) (by decide) (by decide)) (hshort .write)
     (bufSizeOf w (fault .alloc (s.count .alloc))) (s.src.length + 2)
     { issueSt fault s .alloc with errno := 0 } (s.dst.getD []).length
-  exact finishR_ok fault _ _ _ _ (no_err_of_hok fault hok .fdatasync (by decide) (by decide))
-    (no_err_of_hok fault hok .closeDst (by decide) (by decide)) (no_err_of_hok fault hok .closeSrc (by decide) (by decide)) (by rw [h.2]) h.1
+  exact finishR_ok fault _ _ _ _ (no_err_of_hok fault hok .fdatasync (by decide) (by decide) (by decide))
+    (no_err_of_hok fault hok .closeDst (by decide) (by decide) (by decide)) (no_err_of_hok fault hok .closeSrc (by decide) (by decide) (by decide)) (freeOne_errno ..) h.1
 
 theorem stageCopy_ok (s : St) : (stageCopy w fault s).status = 0 := by
   rw [stageCopy_eq]
   have h := cfrLoop_ok fault (fun n e hf => by
-      rcases hok _ n e hf with h' | ⟨_, h'⟩
+      rcases hok _ n e hf with h' | h' | ⟨_, h'⟩
+      · exact absurd h' (by decide)
       · exact absurd h' (by decide)
       · exact h') (s.src.length + 1) { s with errno := 0 } s.src.length
+  split
+  · exact stageFallback_ok w fault hok hshort _
   rcases h with ⟨h1, h2⟩ | h1
   · rw [h1]
-    exact finishR_ok fault _ _ _ _ (no_err_of_hok fault hok .fdatasync (by decide) (by decide))
-      (no_err_of_hok fault hok .closeDst (by decide) (by decide)) (no_err_of_hok fault hok .closeSrc (by decide) (by decide)) h2 rfl
+    exact finishR_ok fault _ _ _ _ (no_err_of_hok fault hok .fdatasync (by decide) (by decide) (by decide))
+      (no_err_of_hok fault hok .closeDst (by decide) (by decide) (by decide)) (no_err_of_hok fault hok .closeSrc (by decide) (by decide) (by decide)) h2 rfl
   · rw [h1]
     exact stageFallback_ok w fault hok hshort _
 
@@ -943,14 +1149,14 @@ theorem stageTrunc_ok (s : St) (hne : w.dst ≠ .sameAsSrc) : (stageTrunc w ow f
     exact stageCopy_ok w fault hok hshort _
   · simp only [if_true]
     split
-    · rename_i hf; exact absurd hf (no_err_of_hok fault hok .ftruncate (by decide) (by decide) _ _)
+    · rename_i hf; exact absurd hf (no_err_of_hok fault hok .ftruncate (by decide) (by decide) (by decide) _ _)
     · exact stageCopy_ok w fault hok hshort _
 
 theorem stageFstatDst_ok (s : St) (hne : w.dst ≠ .sameAsSrc) :
     (stageFstatDst w ow fault s).status = 0 := by
   rw [stageFstatDst_eq]
   split
-  · rename_i hf; exact absurd hf (no_err_of_hok fault hok .fstatDst (by decide) (by decide) _ _)
+  · rename_i hf; exact absurd hf (no_err_of_hok fault hok .fstatDst (by decide) (by decide) (by decide) _ _)
   · exact stageTrunc_ok w ow fault hok hshort _ hne
 
 omit hok hshort in
@@ -964,7 +1170,7 @@ theorem dstErrOf_eq_none {f : Option Fault} (hf : ∀ e, f ≠ some (.err e))
 
 theorem stageDst_ok (s : St) (hdst : w.dst = .absent ∨ (ow = true ∧ ∃ c, w.dst = .file c)) :
     (stageDst w ow fault s).status = 0 := by
-  rw [stageDst_eq, dstErrOf_eq_none w ow (no_err_of_hok fault hok .openDst (by decide) (by decide) _) hdst]
+  rw [stageDst_eq, dstErrOf_eq_none w ow (no_err_of_hok fault hok .openDst (by decide) (by decide) (by decide) _) hdst]
   refine stageFstatDst_ok w ow fault hok hshort _ ?_
   rcases hdst with h | ⟨_, c, h⟩ <;> rw [h] <;> simp
 
@@ -973,7 +1179,7 @@ theorem stageSrc_ok (s : St) (hreg : w.srcKind = .regular)
     (stageSrc w ow fault s).status = 0 := by
   rw [stageSrc_eq]
   split
-  · rename_i hf; exact absurd hf (no_err_of_hok fault hok .fstatSrc (by decide) (by decide) _ _)
+  · rename_i hf; exact absurd hf (no_err_of_hok fault hok .fstatSrc (by decide) (by decide) (by decide) _ _)
   · simp only [hreg, ne_eq, not_true_eq_false, if_false]
     exact stageDst_ok w ow fault hok hshort _ hdst
 
@@ -985,7 +1191,7 @@ theorem copyFile_ok (hreg : w.srcKind = .regular)
     unfold openErrOf
     rcases hf : fault .openSrc 0 with _ | ⟨e⟩ | ⟨n⟩ <;> simp only []
     · simp [hreg]
-    · exact absurd hf (no_err_of_hok fault hok .openSrc (by decide) (by decide) _ _)
+    · exact absurd hf (no_err_of_hok fault hok .openSrc (by decide) (by decide) (by decide) _ _)
     · simp [hreg]
   rw [this]
   exact stageSrc_ok w ow fault hok hshort _ hreg hdst
@@ -1118,6 +1324,148 @@ theorem copyFile_excl_status (hreg : w.srcKind = .regular)
   rw [stageSrc_eq, hc1, h2]
   simp only [hreg, ne_eq, not_true_eq_false, if_false]
   exact stageDst_excl_status w fault c hd _ (by rw [hc2]; exact h3)
+end
+
+/-! ### SUCCESS only if the final `fdatasync` and both closes succeeded -/
+section
+variable (hl : ∀ c n e, fault c n = some (.err e) → e ≠ 0)
+include hl
+
+theorem finishR_reported (s : St) (status : Int) (hf : Fresh s)
+    (h0 : (finishR fault s true true status).status = 0) : NoCloseErr fault :=
+  finishCopy_reported fault hl s status hf h0
+
+theorem stageFallback_reported (s : St) (hf : Fresh s) (h0 : (stageFallback w fault s).status = 0) :
+    NoCloseErr fault := by
+  rw [stageFallback_eq] at h0
+  refine finishR_reported fault hl _ _ ?_ h0
+  have h1 : Fresh ({ issueSt fault s .alloc with errno := 0 } : St) := hf.issue fault .alloc
+  have h2 := h1.copyBlocks fault (bufSizeOf w (fault .alloc (s.count .alloc))) (s.src.length + 2)
+    (s.dst.getD []).length
+  rw [freeOne_eq]
+  exact h2.issue fault .free
+
+theorem stageCopy_reported (s : St) (hf : Fresh s) (h0 : (stageCopy w fault s).status = 0) :
+    NoCloseErr fault := by
+  rw [stageCopy_eq] at h0
+  have h1 : Fresh ({ s with errno := 0 } : St) := hf
+  have h2 := h1.cfrLoop fault (s.src.length + 1) s.src.length
+  split at h0
+  · exact stageFallback_reported w fault hl s hf h0
+  · split at h0
+    · exact finishR_reported fault hl _ _ h2 h0
+    · exact stageFallback_reported w fault hl _ h2 h0
+
+theorem stageTrunc_reported (s : St) (hf : Fresh s) (h0 : (stageTrunc w ow fault s).status = 0) :
+    NoCloseErr fault := by
+  rw [stageTrunc_eq] at h0
+  split at h0
+  · exact finishR_reported fault hl _ _ hf h0
+  · split at h0
+    · split at h0
+      · rename_i hq; exact absurd h0 (finishR_ne_of_err fault hl _ _ _ hq)
+      · refine stageCopy_reported w fault hl _ ?_ h0
+        exact hf.issue fault .ftruncate
+    · exact stageCopy_reported w fault hl s hf h0
+
+theorem stageFstatDst_reported (s : St) (hf : Fresh s) (h0 : (stageFstatDst w ow fault s).status = 0) :
+    NoCloseErr fault := by
+  rw [stageFstatDst_eq] at h0
+  split at h0
+  · rename_i hq; exact absurd h0 (finishR_ne_of_err fault hl _ _ _ hq)
+  · exact stageTrunc_reported w ow fault hl _ (hf.issue fault .fstatDst) h0
+
+theorem stageDst_reported (s : St) (hf : Fresh s) (h0 : (stageDst w ow fault s).status = 0) :
+    NoCloseErr fault := by
+  rw [stageDst_eq] at h0
+  split at h0
+  · rename_i e he
+    have hne := dstErrOf_some_ne w ow (fun e h => hl _ _ e h) he
+    rw [finishR_status_of_ne _ _ _ _ _ (errnoStatus_ne_zero hne)] at h0
+    exact absurd h0 (errnoStatus_ne_zero hne)
+  · exact stageFstatDst_reported w ow fault hl (dstOpened fault s) (hf.issue fault .openDst) h0
+
+theorem stageSrc_reported (s : St) (hf : Fresh s) (h0 : (stageSrc w ow fault s).status = 0) :
+    NoCloseErr fault := by
+  rw [stageSrc_eq] at h0
+  split at h0
+  · rename_i hq; exact absurd h0 (finishR_ne_of_err fault hl _ _ _ hq)
+  · split at h0
+    · rw [finishR_status_of_ne _ _ _ _ _ (by decide)] at h0; exact absurd h0 (by decide)
+    · exact stageDst_reported w ow fault hl _ (hf.issue fault .fstatSrc) h0
+
+/-- SUCCESS is never returned when the `fdatasync` or the close of either descriptor failed. -/
+theorem copyFile_reported (h0 : (copyFile w ow fault).status = 0) : NoCloseErr fault := by
+  rw [copyFile_eq'] at h0
+  have hi : Fresh (initSt w) := ⟨rfl, rfl, rfl⟩
+  split at h0
+  · rename_i e he
+    have hne := openErrOf_some_ne w (fun e h => hl _ _ e h) he
+    rw [finishR_status_of_ne _ _ _ _ _ (errnoStatus_ne_zero hne)] at h0
+    exact absurd h0 (errnoStatus_ne_zero hne)
+  · refine stageSrc_reported w ow fault hl _ ?_ h0
+    exact hi.issue fault .openSrc
+end
+
+/-! ### a source that reports no size never meets `copy_file_range` -/
+
+theorem finishR_count (s : St) (hd hs : Bool) (status : Int) {c' : Call} (h0 : c' ≠ .fdatasync)
+    (h1 : c' ≠ .closeDst) (h2 : c' ≠ .closeSrc) : (finishR fault s hd hs status).st.count c' = s.count c' :=
+  finishCopy_count fault s hd hs status h0 h1 h2
+
+theorem finishR_cfr (s : St) (hd hs : Bool) (status : Int) :
+    (finishR fault s hd hs status).st.count .cfr = s.count .cfr :=
+  finishR_count fault s hd hs status (by decide) (by decide) (by decide)
+
+theorem stageFallback_cfr (s : St) : (stageFallback w fault s).st.count .cfr = s.count .cfr := by
+  rw [stageFallback_eq, finishR_cfr, freeOne_count _ _ _ (by decide),
+    copyBlocks_count fault (by decide) (by decide)]
+  exact issueSt_count_ne fault s (by decide)
+
+section
+variable (hk : w.sizeKnown = false)
+include hk
+
+theorem stageCopy_cfr (s : St) : (stageCopy w fault s).st.count .cfr = s.count .cfr := by
+  rw [stageCopy_eq, if_pos (Or.inl hk)]
+  exact stageFallback_cfr w fault s
+
+theorem stageTrunc_cfr (s : St) : (stageTrunc w ow fault s).st.count .cfr = s.count .cfr := by
+  rw [stageTrunc_eq]
+  split
+  · exact finishR_cfr ..
+  · split
+    · split
+      · exact (finishR_cfr ..).trans (issueSt_count_ne fault s (by decide))
+      · exact (stageCopy_cfr w fault hk _).trans (issueSt_count_ne fault s (by decide))
+    · exact stageCopy_cfr w fault hk s
+
+theorem stageFstatDst_cfr (s : St) : (stageFstatDst w ow fault s).st.count .cfr = s.count .cfr := by
+  rw [stageFstatDst_eq]
+  split
+  · exact (finishR_cfr ..).trans (issueSt_count_ne fault s (by decide))
+  · exact (stageTrunc_cfr w ow fault hk _).trans (issueSt_count_ne fault s (by decide))
+
+theorem stageDst_cfr (s : St) : (stageDst w ow fault s).st.count .cfr = s.count .cfr := by
+  rw [stageDst_eq]
+  split
+  · exact (finishR_cfr ..).trans (issueSt_count_ne fault s (by decide))
+  · exact (stageFstatDst_cfr w ow fault hk (dstOpened fault s)).trans (issueSt_count_ne fault s (by decide))
+
+theorem stageSrc_cfr (s : St) : (stageSrc w ow fault s).st.count .cfr = s.count .cfr := by
+  rw [stageSrc_eq]
+  split
+  · exact (finishR_cfr ..).trans (issueSt_count_ne fault s (by decide))
+  · split
+    · exact (finishR_cfr ..).trans (issueSt_count_ne fault s (by decide))
+    · exact (stageDst_cfr w ow fault hk _).trans (issueSt_count_ne fault s (by decide))
+
+/-- With `sizeKnown = false` no `copy_file_range` call is made. -/
+theorem copyFile_cfr : (copyFile w ow fault).st.count .cfr = 0 := by
+  rw [copyFile_eq']
+  split
+  · exact (finishR_cfr ..).trans (issueSt_count_ne fault (initSt w) (by decide))
+  · exact (stageSrc_cfr w ow fault hk _).trans (issueSt_count_ne fault (initSt w) (by decide))
 end
 end
 
